@@ -184,9 +184,15 @@ def run_case(rng, tier, case):
                     pr = {'a': pd.Series(arr, index=np.arange(tg.T)), 'b': pd.Series(arr[::-1], index=np.arange(tg.T))}
                 else:
                     pr = pd.DataFrame({'a': arr, 'b': arr[::-1]})
+                idx_before = None if not isinstance(pr, pd.DataFrame) else pr.index.copy()
                 out = tg.prices_to_grid(pr)
                 ok = (list(out.index) == list(tg.timepoints)) and np.array_equal(out['a'].values, arr) and np.array_equal(out['b'].values, arr[::-1])
                 case.check('prices.passthrough', bool(ok), kind=kind, grid=g)
+                if idx_before is not None:
+                    # "pass through unchanged" includes the caller's object: the same frame gives the same result a second time and keeps its labels
+                    out2 = tg.prices_to_grid(pr)
+                    case.check('prices.input_untouched', bool(pr.index.equals(idx_before)) and np.array_equal(out2['a'].values, arr), kind=kind,
+                               index_before=type(idx_before).__name__, index_after=type(pr.index).__name__)
                 case.feature('prices:' + kind)
     for ev in rec.of('timegrid'):
         mon_timegrid(case, ev)
